@@ -96,4 +96,44 @@ def parseV2Seg (r0 : Rdr) (e : EndK) : Rd × Rdr :=
                 else (tailFree b13 b14 len r6.buf,               -- addresses and drain come out of the buffer
                       { r6 with buf := r6.buf.drop len })
 
+/-- how many bytes of the stream a successful `Read` has consumed -/
+def Rd.consumed : Rd → Option Nat
+  | .sock n => some n
+  | .hdr _ _ _ _ _ n => some n
+  | _ => none
+
+/-- `Read(reader)` (header.go) on the segmented reader: Peek(1), Peek(5), Peek(12) dispatch; the v1 branch
+    (`ReadString`) is a parameter -/
+def readHeaderSeg (v1 : Rdr → Rd × Rdr) (r : Rdr) (e : EndK) : Rd × Rdr :=
+  let r1 := r.need 1
+  match r1.buf with
+  | [] => (.err, r1)
+  | b :: _ =>
+    if b ≠ 0x50 ∧ b ≠ 0x0D then (.noProxy, r1)
+    else
+      let r5 := r1.need 5
+      if r5.buf.length < 5 then (.err, r5)
+      else if r5.buf.take 5 = sigV1 then v1 r5
+      else
+        let r12 := r5.need 12
+        if r12.buf.length < 12 then (.err, r12)
+        else if r12.buf.take 12 = sigV2 then parseV2Seg r12 e
+        else (.noProxy, r12)
+
+/-- one `bfe_proxy.Conn` over a connection that delivers `segs`: header phase through the limiter, then the
+    limit is lifted and the application reads everything the reader still holds or will get (`all`) -/
+def connSeg (v1 : Rdr → Rd × Rdr) (segs : List Bytes) (limit : Nat) (e : EndK) : Obs :=
+  let p := readHeaderSeg v1 { buf := [], segs := segs, N := effLimit limit } e
+  match p.1 with
+  | .noProxy => { src := none, dst := none, data := p.2.all, fin := finOf e, closed := false }
+  | .err => rejectObs none
+  | .sock _ => { src := none, dst := none, data := p.2.all, fin := finOf e, closed := false }
+  | .hdr fam s d sp dp _ =>
+    match resolve fam s sp with
+    | none => rejectObs none
+    | some sa =>
+      match resolve fam d dp with
+      | none => rejectObs (some sa)
+      | some da => { src := some sa, dst := some da, data := p.2.all, fin := finOf e, closed := false }
+
 end BfeVerif.C46
